@@ -78,8 +78,10 @@ fn run_slice_seq(r: &mut Rng, ctors: &[u64], ops: &[(u64, usize, usize)]) -> (Ve
     let live = Arc::new(AtomicIsize::new(0));
     let mut trace = Vec::new();
     // static-like backing for borrowed values: lives for the whole sequence
-    let backing: Vec<Vec<Elem>> = LENS.iter().map(|(l, _)| (0..*l).map(|i| Elem::new(1000 + i as u32, &live)).collect()).collect();
-    let backing_count: isize = backing.iter().map(|b| b.len() as isize).sum();
+    // one buffer for all borrowed values: slices of different lengths then start at the same address
+    let maxlen = LENS.iter().map(|(l, _)| *l).max().unwrap();
+    let backing: Vec<Elem> = (0..maxlen).map(|i| Elem::new(1000 + i as u32, &live)).collect();
+    let backing_count: isize = backing.len() as isize;
     let mut arcs: Vec<Arc<[Elem]>> = Vec::new();
     let mut arc_expect: Vec<usize> = Vec::new(); // expected strong count
     let mut pool: Vec<(Cow<'_, [Elem]>, MK, Vec<u32>)> = Vec::new();
@@ -89,7 +91,7 @@ fn run_slice_seq(r: &mut Rng, ctors: &[u64], ops: &[(u64, usize, usize)]) -> (Ve
         let (len, cap) = LENS[(*c / 3) as usize % LENS.len()];
         match c % 3 {
             0 => {
-                let b = &backing[(*c / 3) as usize % LENS.len()];
+                let b = &backing[..len];
                 let cow = if ci % 2 == 0 { Cow::from_borrowed(&b[..]) } else { Cow::const_slice(&b[..]) };
                 pool.push((cow, MK::Borrowed, b.iter().map(|e| e.val).collect()));
                 trace.push(format!("borrowed(len={})", len));
@@ -308,6 +310,7 @@ fn run_slice_seq(r: &mut Rng, ctors: &[u64], ops: &[(u64, usize, usize)]) -> (Ve
 fn run_str_seq(r: &mut Rng, ctors: &[u64], ops: &[(u64, usize, usize)]) -> (Vec<String>, Option<Fail>) {
     let mut trace = Vec::new();
     let backing: Vec<String> = LENS.iter().map(|(l, _)| "é".repeat(*l / 2) + &"x".repeat(*l % 2 + if *l > 0 { 0 } else { 0 })).collect();
+    let shared_buf: String = (0..64).map(|i| (b'k' + (i % 7) as u8) as char).collect();
     let mut arcs: Vec<Arc<str>> = Vec::new();
     let mut arc_expect: Vec<usize> = Vec::new();
     let mut pool: Vec<(Cow<'_, str>, MK, String)> = Vec::new();
@@ -317,14 +320,15 @@ fn run_str_seq(r: &mut Rng, ctors: &[u64], ops: &[(u64, usize, usize)]) -> (Vec<
         let (len, cap) = LENS[idx];
         match c % 3 {
             0 => {
-                let b = &backing[idx];
+                // either its own buffer (non-ASCII) or a prefix of one shared buffer (same start address, other length)
+                let b: &str = if ci == 0 { backing[idx].as_str() } else { &shared_buf[..len] };
                 let cow = match ci % 3 {
-                    0 => Cow::from_borrowed(b.as_str()),
-                    1 => Cow::const_str(b.as_str()),
-                    _ => Cow::from(std::borrow::Cow::Borrowed(b.as_str())),
+                    0 => Cow::from_borrowed(b),
+                    1 => Cow::const_str(b),
+                    _ => Cow::from(std::borrow::Cow::Borrowed(b)),
                 };
-                pool.push((cow, MK::Borrowed, b.clone()));
-                trace.push(format!("borrowed({}B)", b.len()));
+                pool.push((cow, MK::Borrowed, b.to_string()));
+                trace.push(format!("borrowed({}B{})", b.len(), if ci == 0 { "" } else { ", prefix of the shared buffer" }));
             }
             1 => {
                 let mut s = String::with_capacity(cap);
